@@ -6,11 +6,12 @@ import json, os, subprocess, sys, glob, shutil
 os.chdir(os.environ.get("VERIF_DIR", "/verif"))      # VERIF_DIR: run from a snapshot of /verif while /verif is being edited
 EXTRA = {"C02-A": ["C02", "C06"], "C02-B": ["C02"], "C03-A": ["C03", "C02"], "C03-B": ["C03", "C02"], "C06-A": ["C06", "C02"],
          "C06-B": ["C06", "C02"], "C07-A": ["C07", "C01"], "C07-B": ["C07", "C01"], "C01-A": ["C01"], "C01-B": ["C01"],
-         "C15-B": ["C15", "C10"]}
+         "C15-B": ["C15", "C10"], "C03-I": ["C03", "C04"]}
 ids = sys.argv[1:] or sorted(os.path.basename(d) for d in glob.glob("seeded/C*-*"))
-out = json.load(open("seeded/RESULTS.json")) if os.path.exists("seeded/RESULTS.json") else {}
-WT = "/tmp/seeded-wt"
-OUT = "/tmp/seeded-out"
+RES = os.environ.get("SEEDED_RESULTS", "seeded/RESULTS.json")     # several instances may run side by side on disjoint ids,
+out = json.load(open(RES)) if os.path.exists(RES) else {}          # each with its own results file (merged afterwards)
+WT = "/tmp/seeded-wt-%d" % os.getpid()
+OUT = "/tmp/seeded-out-%d" % os.getpid()
 subprocess.run("git -C /repo worktree remove --force %s" % WT, shell=True, capture_output=True)
 shutil.rmtree(WT, ignore_errors=True)
 assert subprocess.run("git -C /repo worktree add --detach %s HEAD" % WT, shell=True, capture_output=True).returncode == 0
@@ -35,7 +36,7 @@ try:
         res["detected"] = any(v["exit"] == 1 for v in res["checks"].values())
         out[sid] = res
         print(sid, "DETECTED" if res["detected"] else "missed", {p: v["exit"] for p, v in res["checks"].items()}, flush=True)
-        json.dump(out, open("seeded/RESULTS.json", "w"), indent=1)
+        json.dump(out, open(RES, "w"), indent=1)
 finally:
     subprocess.run("git -C /repo worktree remove --force %s" % WT, shell=True, capture_output=True)
     shutil.rmtree(WT, ignore_errors=True)
